@@ -424,3 +424,74 @@ func globalIndices(v ssa.Value) map[ssa.Value]bool {
 	walk(v, 0)
 	return out
 }
+
+// runR1811 (R18.11): the reported count of a period is the number of observations: on every path through the
+// observer from entry to a normal return, the period's count field is incremented by exactly one atomic add (before any
+// sampling decision), and so is the bucket the value falls into.
+func runR1811(c *core.Ctx) {
+	c.Rule("R18.11", "every observation is counted: each path through the histogram observer to a normal return passes exactly one atomic add of 1 to the period's count field and one to a bucket", 2)
+	fn := c.P.Func("metrics", "ObserveHist")
+	if fn == nil {
+		c.Undecided("R18.11", "metrics.ObserveHist", "-", "anchor not found")
+		return
+	}
+	isAddTo := func(ins ssa.Instruction, pred func(addr ssa.Value) bool) bool {
+		cc := ssax.CallOf(ins)
+		if cc == nil || ssax.CalleeName(cc) != "sync/atomic.AddUint64" {
+			return false
+		}
+		if k, ok := ssax.ConstInt(cc.Args[1]); !ok || k != 1 {
+			return false
+		}
+		return pred(cc.Args[0])
+	}
+	isCount := func(a ssa.Value) bool { n, ok := ssax.FieldName(ssax.Unwrap(a)); return ok && n == "count" }
+	isBucket := func(a ssa.Value) bool {
+		ia, ok := ssax.Unwrap(a).(*ssa.IndexAddr)
+		if !ok {
+			return false
+		}
+		n, ok := ssax.FieldName(ssax.Unwrap(ia.X))
+		if !ok {
+			if u, isU := ssax.Unwrap(ia.X).(*ssa.UnOp); isU {
+				n, ok = ssax.FieldName(u.X)
+			}
+		}
+		return ok && n == "buckets"
+	}
+	for _, w := range []struct {
+		name string
+		pred func(ssa.Value) bool
+	}{{"count", isCount}, {"bucket", isBucket}} {
+		key := "metrics.ObserveHist#" + w.name + "-incremented-once"
+		n := 0
+		ssax.Instrs(fn, func(ins ssa.Instruction) {
+			if isAddTo(ins, w.pred) {
+				n++
+			}
+		})
+		if n == 0 {
+			c.Violate("R18.11", key, c.P.Pos(fn.Pos()), "the observer never adds 1 to the "+w.name+" atomically: observations are not counted")
+			continue
+		}
+		isRet := func(i ssa.Instruction) bool { _, ok := i.(*ssa.Return); return ok }
+		miss, trail := (ssax.Reach{Target: isRet, Avoid: func(i ssa.Instruction) bool { return isAddTo(i, w.pred) }}).FromBlock(fn.Blocks[0])
+		// twice: from an add, another add reachable
+		twice := false
+		ssax.Instrs(fn, func(ins ssa.Instruction) {
+			if isAddTo(ins, w.pred) {
+				if hit, _ := (ssax.Reach{Target: func(i ssa.Instruction) bool { return isAddTo(i, w.pred) }}).From(ins); hit != nil {
+					twice = true
+				}
+			}
+		})
+		switch {
+		case miss != nil:
+			c.Violate("R18.11", key, c.P.Pos(miss.Pos()), "the observer can return without having added 1 to the "+w.name+" ("+strings.Join(ssax.BlockTrail(c.P.Fset, trail), " -> ")+"): the reported count is below the number of observations")
+		case twice:
+			c.Violate("R18.11", key, c.P.Pos(fn.Pos()), "an observation can be added to the "+w.name+" twice")
+		default:
+			c.OK("R18.11", key, c.P.Pos(fn.Pos()), "exactly one atomic add of 1 on every path to a return")
+		}
+	}
+}
